@@ -89,7 +89,7 @@ func NewTreePersistent(path string) (*Tree, error) {
 func (t *Tree) reinit() {
 	// Calculate t.nextPage by finding the first node whose pageID is not set.
 	t.nextPage = 1
-	for int(t.nextPage)*pageSize < len(t.data) {
+	for (int(t.nextPage)+1)*pageSize <= len(t.data) {
 		n := t.node(t.nextPage)
 		if n.pageID() == 0 {
 			break
